@@ -790,6 +790,15 @@ class Registry:
 
     # ------------------------------------------------------------------ the call rule
     def apply_contract(self, eng, c: Contract, args, kwargs, st, node, self_expr=None):
+        # opts=["callee:<key>=<key>@<tag>"] of the function being verified: at ITS call sites use another contract of the SAME callee function
+        # (e.g. the Seq-valued contract of get_parent_modules instead of the Bag-valued one); anything else is refused
+        for o in (getattr(getattr(eng, "c", None), "opts", ()) or ()):
+            if o.startswith("callee:") and o[7:].split("=", 1)[0] == c.key:
+                alt_ = self.contracts.get(o.split("=", 1)[1])
+                if alt_ is None or alt_.qualname.split("@")[0] != c.qualname.split("@")[0] or (alt_.module or c.module) != (c.module or alt_.module) or alt_.kind != c.kind:
+                    raise ContractDrift(f"callee variant {o}: not a contract of the same function")
+                c = alt_
+                break
         try:
             return self._apply_contract(eng, c, args, kwargs, st, node, self_expr)
         except BindMismatch:
